@@ -36,6 +36,25 @@ func ToVariable(ent types.EntityUID) (types.String, bool) {
 	return "", false
 }
 
+// holdsVariable reports whether a record or set contains a variable at any depth.
+func holdsVariable(v types.Value) bool {
+	switch t := v.(type) {
+	case types.Record:
+		for vv := range t.Values() {
+			if IsVariable(vv) || holdsVariable(vv) {
+				return true
+			}
+		}
+	case types.Set:
+		for vv := range t.All() {
+			if IsVariable(vv) || holdsVariable(vv) {
+				return true
+			}
+		}
+	}
+	return false
+}
+
 func IsIgnore(v types.Value) bool {
 	if ent, ok := v.(types.EntityUID); ok && ent.Type == ignoreEntityType {
 		return true
@@ -182,6 +201,16 @@ func tryPartial(env Env, nodes []ast.IsNode,
 		ok = false
 	}
 	if ok {
+		// A record or set that still holds a variable can be navigated (attribute access, has)
+		// or embedded in a literal, but comparing, searching or measuring it would use the
+		// placeholder instead of the value it stands for.
+		if slices.ContainsFunc(values, holdsVariable) {
+			switch mkNode(nodes).(type) {
+			case ast.NodeTypeAccess, ast.NodeTypeHas, ast.NodeTypeSet, ast.NodeTypeRecord:
+			default:
+				return mkNode(nodes), errVariable
+			}
+		}
 		eval := mkEval(values)
 		v, err := eval.Eval(env)
 		if err != nil {
